@@ -23,6 +23,13 @@ mod rules;
 #[cfg(feature = "metrics")]
 mod metrics;
 
+// verification hook H1: in-process monitors live outside the repository and are only
+// compiled with --cfg mengjiangproject_redproxy_rs_verif
+#[cfg(mengjiangproject_redproxy_rs_verif)]
+mod verif_hooks {
+    include!(concat!(env!("REDPROXY_VERIF_DIR"), "/inproc/mod.rs"));
+}
+
 use crate::{connectors::Connector, context::ContextRefOps, copy::copy_bidi, listeners::Listener};
 
 pub const VERSION: &str = env!("CARGO_PKG_VERSION");
@@ -65,6 +72,10 @@ impl GlobalState {
 }
 #[tokio::main]
 async fn main() -> Result<(), Terminator> {
+    #[cfg(mengjiangproject_redproxy_rs_verif)]
+    if let Ok(monitor) = std::env::var("REDPROXY_VERIF_INPROC") {
+        return verif_hooks::main(monitor).await;
+    }
     let args = clap::Command::new(env!("CARGO_BIN_NAME"))
         .version(VERSION)
         .arg(
